@@ -4,5 +4,6 @@ Import ListNotations.
 #[local] Open Scope string_scope.
 (* (file, enclosing function, kind, what) : state that outlives one call of minify() *)
 Definition state_sites : list (string * string * string * string) := [
-  ("ast_compare.py", "compare_ast", "set-order", "set(l_ast._fields + r_ast._fields)")
+  ("ast_compare.py", "compare_ast", "set-order", "set(l_ast._fields + r_ast._fields)");
+  ("rename/name_generator.py", "random_generator", "nondeterministic", "random.choice")
 ].
